@@ -245,3 +245,44 @@ func VerifSeqSemantics() {
 		verifnd.Reach("v2")
 	}
 }
+
+var vsqMode int64
+
+// VerifV2RunHistory: one loaded v2 Script is run several times; a run that fails inside a block
+// (or inside a loop body) after assigning top-level variables leaves nothing behind: in the next
+// run a name that run never assigned is undefined (the documented v2 error), and a clean run still
+// gives its own trace. Orders: fail, read / fail, clean, read / clean, fail, read / fail, fail, read.
+func VerifV2RunHistory() {
+	text := "m = mode()\nif m == 1 {\n  probe(v)\n}\nv = \"left over\"\nw = [1]\nz = 0\n" +
+		[]string{"if m == 0 {\n  q = 1 / z\n}\n", "for i = 0; i < 2; i = i + 1 {\n  if m == 0 {\n    q = w[5]\n  }\n}\n", "for x in w {\n  if m == 0 {\n    q = 1 % z\n  }\n}\n"}[verifnd.Choice(3)] +
+		"probe(\"end\")\n"
+	tables := vsqV2Tables()
+	tables["mode"] = &runtimev2.Fn{CallCheck: func(ctx *runtimev2.Task, e *ast.CallExpr) *errchain.PlError { return nil },
+		Call: func(ctx *runtimev2.Task, e *ast.CallExpr) *errchain.PlError {
+			ctx.Regs.ReturnAppend(runtimev2.V{V: vsqMode, T: ast.Int})
+			return nil
+		}}
+	s, err := engine.ParseV2("s.p", text, tables)
+	verifnd.Assert(err == nil && s != nil, "program-loads")
+	if err != nil || s == nil {
+		return
+	}
+	order := [][]int64{{0, 1}, {0, 2, 1}, {2, 0, 1}, {0, 0, 1}, {1, 0, 1, 2}}[verifnd.Choice(5)]
+	for _, mode := range order {
+		vsqMode = mode
+		vsqTrace = nil
+		rerr := s.Run(nil)
+		switch mode {
+		case 0:
+			verifnd.Assert(rerr != nil, "history:failing-run-fails")
+			verifnd.Assert(len(vsqTrace) == 0, "history:failing-run-observes-nothing")
+		case 1:
+			verifnd.Assert(rerr != nil, "history:undefined-name-is-an-error-after-any-history")
+			verifnd.Assert(len(vsqTrace) == 0, "history:no-value-left-over-from-an-earlier-run")
+		default:
+			verifnd.Assert(rerr == nil, "history:clean-run-succeeds")
+			verifnd.Assert(len(vsqTrace) == 1 && vsqSame(vsqTrace[0], "end"), "history:clean-run-trace")
+		}
+	}
+	verifnd.Reach("history-ran")
+}
